@@ -111,7 +111,8 @@ def run_session(scn, sched, keep_sim=True, max_decisions=None, extra_setup=None)
     sim = Sim(policy, stalls=stalls, interrupts=interrupts,
               max_decisions=max_decisions or sched.get('max_decisions', 400_000),
               max_time=sched.get('max_time', 1e7),
-              steps_after_fault=sched.get('steps_after_fault'))
+              steps_after_fault=sched.get('steps_after_fault'),
+              interrupt_on_hang='server' if sched.get('interrupt_on_hang') else None)
     ncfg = sched.get('net', {})
     netw = net.Network(net.NetConfig(nrng, ncfg.get('chunk', 'whole'),
                                      ncfg.get('latency', 'const'),
@@ -169,6 +170,8 @@ def run_session(scn, sched, keep_sim=True, max_decisions=None, extra_setup=None)
                 overrides = {(abort['board'], abort['phase'], abort['index']): abort['raw']}
             if abort.get('seat') == seat and abort.get('kind') == 'vanish':
                 vanish = (abort['board'], abort['phase'], abort['index'])
+            if abort.get('seat') == seat and abort.get('kind') == 'leave':
+                vanish = (abort['board'], abort['phase'], abort['index'], 'any')
             pl = make_player(scn, seat, spec, f'client:{seat}', overrides=overrides, vanish=vanish)
             run.players.append(pl)
             sim.spawn(pl.run, pl.name)
